@@ -172,6 +172,37 @@ Theorem C15_pd_scan_convex : forall c s e k1 k2,
 Proof. exact between_holds. Qed.
 Print Assumptions C15_pd_scan_convex.
 
+(* decodeRegionError: the region error of any response, built from a physical layout, comes out as the logical one:
+   KeyNotInRegion with the logical key and the region's share of the keyspace (which contains the key), EpochNotMatch
+   with the logical layout (foreign regions dropped), BucketVersionNotMatch with the clipped bucket list *)
+Theorem C15_region_error : forall c k s e phys bs ks,
+  in_range s e (encode_key c k) -> map_opt mem_decode_opt bs = Some ks ->
+  exists s' e', decode_range c s e = ROk s' e' /\ in_range s' e' k /\
+    decode_region_error c (mkre (Some (encode_key c k, mem_enc s, mem_enc e)) (Some (map menc_region phys)) (Some bs))
+    = Some (mkre (Some (k, s', e')) (Some (flat_map (clip_region c) phys)) (Some (dbk c true [] ks))).
+Proof. exact region_error_decode. Qed.
+Print Assumptions C15_region_error.
+
+Theorem C15_region_error_foreign : forall c c2 k s e ep bv, ks_ok c -> ks_ok c2 -> c <> c2 ->
+  decode_region_error c (mkre (Some (encode_key c2 k, s, e)) ep bv) = None.
+Proof. exact region_error_foreign. Qed.
+Print Assumptions C15_region_error_foreign.
+
+(* a whole response, as the list of its key-bearing fields: decoded field by field, or refused as a whole *)
+Theorem C15_response_fields : forall c ks, decode_fields c (map (encode_key c) ks) = Some ks.
+Proof. exact decode_fields_own. Qed.
+Print Assumptions C15_response_fields.
+
+Theorem C15_response_fields_foreign : forall c c2 k fs, ks_ok c -> ks_ok c2 -> c <> c2 ->
+  In (encode_key c2 k) fs -> decode_fields c fs = None.
+Proof. exact decode_fields_foreign. Qed.
+Print Assumptions C15_response_fields_foreign.
+
+(* the free function apicodec.DecodeKey(encoded, V2) *)
+Theorem C15_split_key : forall c k, split_v2_key (encode_key c k) = Some (prefix c, k).
+Proof. exact split_encode. Qed.
+Print Assumptions C15_split_key.
+
 (* ParseKeyspaceID *)
 Theorem C15_parse_keyspace_id : forall c k, ks_ok c -> parse_keyspace_id (encode_key c k) = Some (ks_id c).
 Proof. exact parse_encode. Qed.
@@ -338,6 +369,14 @@ Example ex_buckets :
   decode_bucket_keys (mkks Raw 1) [[]; encode_bytes [114;0;0;1]; encode_bytes [114;0;0;1;5]; encode_bytes [114;0;0;2;1]]
     = Some [[]; [5]; []]
   /\ parse_keyspace_id [120; 0; 1; 2; 9] = Some 258 /\ parse_keyspace_id [109; 0; 1; 2] = None /\ parse_keyspace_id [120; 0; 1] = None.
+Proof. repeat split; vm_compute; reflexivity. Qed.
+Example ex_region_error :
+  decode_region_error (mkks Raw 255)
+    (mkre (Some ([114;0;0;255;113], mem_enc [114;0;0;255;109], mem_enc [114;0;1]))
+          (Some (map menc_region [([], [114;0;0;255;109]); ([114;0;0;255;109], [114;0;1]); ([114;0;1], [114;0;1;0])]))
+          (Some [mem_enc [114;0;0;255;109]; mem_enc [114;0;0;255;112]; mem_enc [114;0;1]]))
+  = Some (mkre (Some ([113], [109], [])) (Some [([], [109]); ([109], [])]) (Some [[109]; [112]; []]))
+  /\ split_v2_key [120; 0; 1; 2; 9] = Some ([120; 0; 1; 2], [9]) /\ split_v2_key [109; 0; 1; 2; 9] = None.
 Proof. repeat split; vm_compute; reflexivity. Qed.
 Example ex_pool : inv 3%nat 3%nat demo_heap demo_heap /\
   fst (sends real demo_ks [(0, 0); (1, 0); (0, 0); (2, 5); (1, 1); (0, 0)]%nat demo_heap)
